@@ -595,7 +595,7 @@ func runSeedSelftest(verif, repo, prop string) []map[string]interface{} {
 		if err != nil {
 			continue
 		}
-		cp := exec.Command("sh", "-c", fmt.Sprintf("cd %q && tar -c --exclude=.git . | tar -x -C %q", repo, tmp))
+		cp := exec.Command("sh", "-c", fmt.Sprintf("cd %q && tar -c --exclude=.git --exclude=./testdata . | tar -x -C %q", repo, tmp))
 		if b, err := cp.CombinedOutput(); err != nil {
 			rec["error"] = "copy failed: " + trunc(string(b), 200)
 			out = append(out, rec)
